@@ -611,6 +611,52 @@ impl<'tcx> Cx<'tcx> {
             blocks.push(obj(b));
         }
         f.push(("blocks", J::Arr(blocks)));
+        // promoted constants: which named items each one mentions
+        if matches!(kind, DefKind::Fn | DefKind::AssocFn | DefKind::Closure) {
+            let proms = tcx.promoted_mir(did);
+            let mut pj = Vec::new();
+            for pb in proms.iter() {
+                let mut names: Vec<String> = Vec::new();
+                for data in pb.basic_blocks.iter() {
+                    for st in data.statements.iter() {
+                        if let StatementKind::Assign(box (_, rv)) = &st.kind {
+                            let mut ops: Vec<&Operand<'tcx>> = Vec::new();
+                            match rv {
+                                Rvalue::Use(o, ..) | Rvalue::Cast(_, o, _) | Rvalue::UnaryOp(_, o) => {
+                                    ops.push(o)
+                                }
+                                Rvalue::BinaryOp(_, box (a, b)) => {
+                                    ops.push(a);
+                                    ops.push(b);
+                                }
+                                Rvalue::Aggregate(_, os) => {
+                                    for o in os.iter() {
+                                        ops.push(o)
+                                    }
+                                }
+                                _ => {}
+                            }
+                            for o in ops {
+                                if let Operand::Constant(c) = o {
+                                    let j = self.const_val(did, &c.const_, c.span);
+                                    if let J::Obj(kv) = &j {
+                                        for (k, v) in kv.iter() {
+                                            if k == "uneval" || k == "static" || k == "fn" {
+                                                if let J::Str(sv) = v {
+                                                    names.push(sv.clone());
+                                                }
+                                            }
+                                        }
+                                    }
+                                }
+                            }
+                        }
+                    }
+                }
+                pj.push(J::Arr(names.into_iter().map(s).collect()));
+            }
+            f.push(("promoted", J::Arr(pj)));
+        }
         obj(f)
     }
 
